@@ -5,9 +5,9 @@ CONSTANTS
   Policies = {"Never", "Always", "WhenNecessary"}
   Truncs = {0, 1, 2}
   FixInvalid = TRUE
-  FixTrunc = FALSE
+  FixTrunc = TRUE
   FixFirstRun = TRUE
-  LSs = {0}
+  LSs = {1}
 CHECK_DEADLOCK FALSE
 INVARIANT InvSteps
 INVARIANT InvContig
